@@ -1,4 +1,5 @@
 import Pokerface.Proofs.EngineFirst
+import Pokerface.Proofs.FlowDecr
 /-
   C04 — Only the player to act can act, in clockwise order, in the right phase.
 
@@ -104,14 +105,17 @@ theorem table_refused_no_effect (g : Game) (op : Op) (hop : op = .ready ∨ op =
   · simp only [Game.step, Game.payBlinds] at h ⊢; split <;> simp_all
   · simp only [Game.step, Game.next] at h ⊢; (repeat' split) <;> simp_all
 
-/-- Full statement of "refused ⇒ no effect" for every operation.  The missing case is
-    `payAnte`: player.go `PayAnte` returns an error from inside the per-seat loop when a seat
-    "has paid already", after earlier seats have paid; that branch is unreachable (at
-    AnteRequested no seat has a wager and every seat is visited once) — see
-    `C06.expected_step_succeeds` for the proof that `payAnte` succeeds there. -/
-def refused_no_effect_full : Prop :=
-  ∀ g, Reachable g → ∀ op, (g.step op).2 ≠ none → (g.step op).1 = g
+/-- Sentence 2, in full: on every reachable state, EVERY operation that returns an error —
+    any action by any seat with any amount, any table operation in any phase — leaves the
+    state exactly as it was.  (The delicate case is `payAnte`: player.go `PayAnte` can return
+    "paid already" from inside the per-seat loop after earlier seats have paid; the invariant
+    `Flow` shows that at AnteRequested no seat has a wager, and `Seats.lean` that every seat is
+    visited once, so that branch is never taken — `payAnte_no_error`.) -/
+theorem refused_no_effect {g : Game} (h : Reachable g) (op : Op) (hr : (g.step op).2 ≠ none) :
+    (g.step op).1 = g :=
+  refused_same g (flow_reachable h) op hr
 
+/-- the same for all states (not only reachable ones), for every operation except `payAnte` -/
 theorem refused_no_effect_partial {g : Game} (op : Op) (hop : op ≠ .payAnte)
     (h : (g.step op).2 ≠ none) : (g.step op).1 = g := by
   cases op with
